@@ -292,8 +292,11 @@ class _ScopeCollector(ast.NodeVisitor):
 
 
 class Program:
-    def __init__(self, sources=None):
+    def __init__(self, sources=None, inline_select=False):
+        """inline_select: False = the program as written; None = every eligible single-call-site private helper inlined;
+        a set of names = those helpers inlined (see inline.py: an equivalent program, used as a refinement variant)."""
         self.sources = sources if sources is not None else read_sources()
+        self.inlined = []
         self.modules = {}
         self.funcs = {}  # qualname -> Func
         self.classes = {}  # qualname -> Class
@@ -305,6 +308,10 @@ class Program:
         for path in sorted(self.sources):
             mod = Module(modname_of(path), path, self.sources[path])
             self.modules[mod.name] = mod
+        if inline_select is not False:
+            from .inline import inline
+            trees = {m.path: m.tree for m in self.modules.values()}
+            self.inlined = inline(trees, self.sources, inline_select)
         for mod in self.modules.values():
             self._index_module(mod)
 
